@@ -424,8 +424,13 @@ class AliasWorld(WorldBase):
                 cols = [self._keep(self._mk_array(nr, (dk if layout != 'mixed' else 'ifUbOM'[j % 6]), w, layout=layout), f'Frame column {j}') for j in range(nc)]
                 labels = COLL[:nc]
                 if r == 1:
+                    if op['layout'] in ('view', 'fortran', 'mixed'):
+                        # explicit dtypes, equal to what the arrays already are (a tempting no-copy fast path)
+                        return cls.from_items(zip(labels, cols), index=index_arg(nr, 0), name=name, dtypes=[c.dtype for c in cols]), 'Frame.from_items(arrays,dtypes)'
                     return cls.from_items(zip(labels, cols), index=index_arg(nr, 0), name=name), 'Frame.from_items(arrays)'
                 if r == 2:
+                    if op['layout'] in ('view', 'strided'):
+                        return cls.from_dict(dict(zip(labels, cols)), index=index_arg(nr, 0), name=name, dtypes={l: c.dtype for l, c in zip(labels, cols)}), 'Frame.from_dict(arrays,dtypes)'
                     return cls.from_dict(dict(zip(labels, cols)), index=index_arg(nr, 0), name=name), 'Frame.from_dict(arrays)'
                 if r == 3:
                     return cls.from_concat([sf.Series(c, index=index_arg(nr, 0), name=l) for l, c in zip(labels, cols)], axis=1, name=name), 'Frame.from_concat(series)'
